@@ -87,5 +87,5 @@ OBLIGATIONS += [dict(OB_DEPS, id='C05.2')]
 from harness.nsrun import ns_fault_obligations, nsfaulted  # noqa: E402
 OBLIGATIONS += ns_fault_obligations('c05', 'C05', ['up-seek', 'up-stream', 'up-path', 'copy'])
 
-from harness.coupload import OB_PROTO, protocol  # noqa: E402
+from harness.coupload import OB_PROTO, protocol_fixed  # noqa: E402
 OBLIGATIONS += [dict(OB_PROTO, id='C05.4', cases=[('upload-seekable', 1, -1), ('upload-seekable', 4, -1)])]
